@@ -261,30 +261,41 @@ theorem rms_eq (x : List ℝ) : rms x = Real.sqrt (dot x x / x.length) := by
 
 theorem rms_nonneg (x : List ℝ) : 0 ≤ rms x := by rw [rms_eq]; exact Real.sqrt_nonneg _
 
-/-- over ℝ the zero-RMS guard of the normaliser agrees with plain division (`a / 0 = 0`) -/
-theorem cosF_eq (x : List ℝ) (a : ℝ) : cosF x a = a / rms x := by
-  unfold cosF
-  by_cases h : 0 < rms x
-  · rw [if_pos h]
-  · rw [if_neg h, le_antisymm (not_lt.mp h) (rms_nonneg x), div_zero]
+theorem nonzero_of_pos {s : ℝ} (h : 0 < s) : nonzero s = s := by unfold nonzero; rw [if_pos h]
 
+theorem nonzero_of_not_pos {s : ℝ} (h : ¬ 0 < s) : nonzero s = 1 := by unfold nonzero; rw [if_neg h]
+
+theorem nonzero_pos (s : ℝ) : 0 < nonzero s := by
+  unfold nonzero; split_ifs with h
+  · exact h
+  · exact one_pos
+
+/-- a vector of zero root mean square is the zero vector -/
+theorem eq_zero_of_rms_zero {x : List ℝ} (h : ¬ 0 < rms x) {a : ℝ} (ha : a ∈ x) : a = 0 := by
+  by_contra hne
+  apply h
+  rw [rms_eq]
+  apply Real.sqrt_pos.mpr
+  have hl : 0 < (x.length : ℝ) := by
+    have : 0 < x.length := List.length_pos_iff.mpr (List.ne_nil_of_mem ha)
+    exact_mod_cast this
+  exact div_pos (dot_self_pos_of_mem ha hne) hl
+
+/-- on the entries of the vector itself the `_nonzero` guard agrees with plain division over ℝ
+    (a zero-RMS vector is zero, and `0 / 1 = 0 / 0`) -/
 theorem applyD_cosF (x : List ℝ) : applyD cosF x = x.map (· / rms x) := by
   unfold applyD
   apply List.map_congr_left
-  intro a _
-  exact cosF_eq x a
+  intro a ha
+  unfold cosF Rsa.Gen.C07.cosScale
+  by_cases h : 0 < rms x
+  · rw [nonzero_of_pos h]
+  · rw [nonzero_of_not_pos h, eq_zero_of_rms_zero h ha]; simp
 
 theorem applyD_corrF (x : List ℝ) : applyD corrF x = applyD cosF (center x) := by
-  rw [applyD_cosF]
-  unfold applyD corrF
+  unfold applyD corrF cosF Rsa.Gen.C07.corrScale Rsa.Gen.C07.corrCenter Rsa.Gen.C07.cosScale
   rw [center_center]
-  simp only [center, List.map_map, Function.comp_def]
-  apply List.map_congr_left
-  intro a _
-  by_cases h : 0 < rms (List.map (fun a => a - mean x) x)
-  · simp only [h, if_true]
-  · simp only [h, if_false]
-    rw [le_antisymm (not_lt.mp h) (rms_nonneg _), div_zero]
+  simp [center, List.map_map, Function.comp_def]
 
 theorem rms_pos {x : List ℝ} (hx : 0 < dot x x) : 0 < rms x := by
   rw [rms_eq]
